@@ -10,6 +10,7 @@ import (
 	"crypto/sha1"
 	"encoding/binary"
 	mrand "math/rand"
+	"sync"
 	"testing"
 
 	"go.minekube.com/gate/pkg/edition/java/auth"
@@ -116,6 +117,37 @@ func TestTrace(t *testing.T) {
 		}
 		perClass[c]++
 		emit(s[:])
+	}
+	// concurrent logins: many goroutines ask the same authenticator for server ids at once;
+	// every (digest, id) pair is judged like the sequential ones
+	{
+		var wg sync.WaitGroup
+		var cmu sync.Mutex
+		workers, per := 8, tracefmt.EnvInt("VERIF_CONC", 400)
+		for wkr := 0; wkr < workers; wkr++ {
+			seed := rng.Int63()
+			wg.Add(1)
+			go func() {
+				defer wg.Done()
+				lr := mrand.New(mrand.NewSource(seed))
+				for i := 0; i < per; i++ {
+					s := make([]byte, 16)
+					lr.Read(s)
+					d := digest(s)
+					id, err := a.GenerateServerID(s)
+					if err != nil {
+						t.Errorf("GenerateServerID: %v", err)
+						return
+					}
+					cmu.Lock()
+					tw.Emit(tracefmt.Rec{"ev": "id", "digest": tracefmt.Bytes(d), "id": id, "concurrent": true})
+					st.Ids++
+					st.Classes[classify(d)]++
+					cmu.Unlock()
+				}
+			}()
+		}
+		wg.Wait()
 	}
 	// the two's complement helper on every 1- and 2-byte input and crafted 20-byte carries
 	do := func(in []byte) {
